@@ -30,17 +30,102 @@ structure Obs where
 
 def Tracker.obs (t : Tracker) : Obs := ⟨t.seq, t.total, t.payload, t.buf⟩
 
-/-- The required observations after the arrivals `h` of stream `s` with initial sequence `isn`
-    (as a decidable check, used verbatim as the run-time oracle on the implementation's output):
-    delivered = `s.take k`; `seq = isn + k` (mod 2^32); every buffered chunk starts strictly above `k`,
-    lies inside `s` and equals that slice of `s`; `total` = the bytes actually held. -/
-def specOK (s : Bytes) (isn : Nat) (h : List Seg) (o : Obs) : Bool :=
-  let k := frontier h s.length
+/-- the required observations when the delivery point is `k` -/
+def specOKat (s : Bytes) (isn : Nat) (k : Nat) (o : Obs) : Bool :=
   o.payload == s.take k &&
   o.seq == wrap32 (isn + k) &&
   o.total == (o.buf.map (fun c => c.2.length)).sum &&
   o.buf.all (fun c =>
     let a := k + sub32 c.1 o.seq      -- absolute start of the chunk
     decide (k < a) && decide (a + c.2.length ≤ s.length) && c.2 == (s.drop a).take c.2.length)
+
+/-- The required observations after the arrivals `h` of stream `s` with initial sequence `isn`
+    (as a decidable check, used verbatim as the run-time oracle on the implementation's output):
+    delivered = `s.take k`; `seq = isn + k` (mod 2^32); every buffered chunk starts strictly above `k`,
+    lies inside `s` and equals that slice of `s`; `total` = the bytes actually held. -/
+def specOK (s : Bytes) (isn : Nat) (h : List Seg) (o : Obs) : Bool :=
+  specOKat s isn (frontier h s.length) o
+
+/-- `frontier` computed incrementally: starting from a position `k` below which everything has arrived, walk
+    up while the position has arrived (`frontier_cons_advance`: this is how the run-time oracle follows the
+    frontier from one arrival to the next) -/
+def advanceFrom (h : List Seg) (n : Nat) : Nat → Nat → Nat
+  | 0, k => k
+  | fuel + 1, k => if k < n ∧ covered h k = true then advanceFrom h n fuel (k + 1) else k
+
+/-- `specOK` with the byte counter compared modulo 2^32 (the counter is a `uint32_t`; the two coincide whenever
+    less than 4 GiB are buffered, in particular for every stream of at most 64 KiB) -/
+def specOKw (s : Bytes) (isn : Nat) (h : List Seg) (o : Obs) : Bool :=
+  let k := frontier h s.length
+  o.payload == s.take k &&
+  o.seq == wrap32 (isn + k) &&
+  o.total == wrap32 (o.buf.map (fun c => c.2.length)).sum &&
+  o.buf.all (fun c =>
+    let a := k + sub32 c.1 o.seq
+    decide (k < a) && decide (a + c.2.length ≤ s.length) && c.2 == (s.drop a).take c.2.length)
+
+/-! ### arrival histories as the quantifier of the property theorems -/
+
+/-- an arriving segment: absolute offset of its first byte (negative = before the ISN) and the bytes it carries -/
+structure SegD where
+  off : Int
+  data : Bytes
+deriving Repr
+
+def SegD.seg (g : SegD) : Seg := ⟨g.off, g.data.length⟩
+
+/-- the 32-bit sequence number a sender with initial sequence number `isn` puts on absolute offset `off` -/
+def seqOf (isn : Nat) (off : Int) : Nat := (((isn : Int) + off) % 4294967296).toNat
+
+/-- the segment carries bytes of the stream `s`: it agrees with `s` on its non-negative part
+    (bytes before the ISN are arbitrary) -/
+def SegD.agrees (s : Bytes) (g : SegD) : Prop :=
+  g.data.drop (-g.off).toNat = (s.drop g.off.toNat).take (g.data.length - (-g.off).toNat)
+
+instance (s : Bytes) (g : SegD) : Decidable (g.agrees s) := by unfold SegD.agrees; infer_instance
+
+/-- a segment that may arrive when the delivery point is `k`: it starts less than half the sequence space
+    before `k`, ends inside the stream, and carries bytes of the stream -/
+def SegD.okAt (s : Bytes) (k : Nat) (g : SegD) : Prop :=
+  (k : Int) - g.off < 2147483648 ∧ g.off + (g.data.length : Int) ≤ (s.length : Int) ∧ g.agrees s
+
+instance (s : Bytes) (k : Nat) (g : SegD) : Decidable (g.okAt s k) := by unfold SegD.okAt; infer_instance
+
+/-- arrival histories are lists with the LATEST arrival first; every arrival is valid w.r.t. the delivery
+    point reached by the arrivals before it -/
+def HistOK (s : Bytes) : List SegD → Prop
+  | [] => True
+  | g :: h => g.okAt s (frontier (h.map SegD.seg) s.length) ∧ HistOK s h
+
+instance HistOK.instDecidable (s : Bytes) : (h : List SegD) → Decidable (HistOK s h)
+  | [] => isTrue trivial
+  | g :: h =>
+    have := HistOK.instDecidable s h
+    (inferInstance : Decidable (g.okAt s (frontier (h.map SegD.seg) s.length) ∧ HistOK s h))
+
+/-- sufficient static condition for a valid history: every segment starts less than 2^31 before the END of the
+    stream (hence before any delivery point), ends inside the stream and carries bytes of the stream -/
+def SegD.okStatic (s : Bytes) (g : SegD) : Prop :=
+  (s.length : Int) - g.off < 2147483648 ∧ g.off + (g.data.length : Int) ≤ (s.length : Int) ∧ g.agrees s
+
+instance (s : Bytes) (g : SegD) : Decidable (g.okStatic s) := by unfold SegD.okStatic; infer_instance
+
+/-- the public mutators of `DataTracker` (for statements about every reachable state) -/
+inductive Op where
+  | seg (seq : Nat) (payload : Bytes)
+  | adv (seq : Nat)
+
+def applyOp (t : Tracker) : Op → Tracker
+  | .seg q p => (processPayload t q p).1
+  | .adv q => advanceSequence t q
+
+/-- the model run over an arrival history given OLDEST arrival first (the order of time) -/
+def runModelFwd (isn : Nat) (h : List SegD) : Tracker :=
+  h.foldl (fun t g => (processPayload t (seqOf isn g.off) g.data).1) (Tracker.init isn)
+
+/-- the model run over an arrival history (latest arrival first) from `DataTracker(isn)` -/
+def runModel (isn : Nat) : List SegD → Tracker
+  | [] => Tracker.init isn
+  | g :: h => (processPayload (runModel isn h) (seqOf isn g.off) g.data).1
 
 end Tins.DT
